@@ -605,6 +605,15 @@ RULES = {
     "R10x": Rule("R10x", "for (a, b) in A.iter_mut().zip(B) { BODY } (A: &mut [T], B: &[T]) -> index loop over min(len A, len B), b = &B[i]",
                  "for ( $a , $b ) in $x . iter_mut ( ) . zip ( $y ) { $$body }",
                  "{ let mut i__ = 0 ; let n__ = Ord :: min ( $x . len ( ) , $y . len ( ) ) ; while i__ < n__ { let $a = & mut $x [ i__ ] ; let $b = & $y [ i__ ] ; i__ += 1 ; $$body } }"),
+    "R12h": Rule("R12h", "V.extend(E.iter()) -> V.extend_from_slice(&E)  (std: `impl Extend<&T> for Vec<T> where T: Copy` copies the elements)",
+                 "$$v . extend ( $$e . iter ( ) )", "$$v . extend_from_slice ( & $$e )",
+                 guard=lambda e: e["$$v"] and e["$$e"] and all(t not in (";", "=", "{", "}", ",") for t in e["$$v"] + e["$$e"])),
+    "R12i": Rule("R12i", "V.drain(..D); -> __vec_drain_front(&mut V, D);  (std: removes the first D elements; the returned iterator is dropped)",
+                 "$$v . drain ( .. $d ) ;", "__vec_drain_front ( & mut $$v , $d ) ;",
+                 guard=lambda e: e["$$v"] and all(t not in (";", "=", "{", "}", ",") for t in e["$$v"])),
+    "R10s": Rule("R10s", "for e in V[D..].iter_mut() { BODY } (V: Vec<T>) -> index loop from D",
+                 "for $e in $v [ $d .. ] . iter_mut ( ) { $$body }",
+                 "{ let mut i__ = $d ; while i__ < $v . len ( ) { let $e = & mut $v . as_mut_slice ( ) [ i__ ] ; i__ += 1 ; $$body } }"),
     "R10w": Rule("R10w", "for a in V.iter_mut() { BODY } (V: Vec<T>) -> index loop",
                  "for $a in $$v . iter_mut ( ) { $$body }",
                  "{ let mut i__ = 0 ; while i__ < $$v . len ( ) { { let $a = & mut $$v . as_mut_slice ( ) [ i__ ] ; i__ += 1 ; $$body } } }"),
@@ -625,7 +634,7 @@ RULES = {
     "R3o": Rule("R3o", "One::one() -> BigUint::one()  (the impl selected by the return type)", "One :: one ( )", "BigUint :: one ( )"),
     "R12g": Rule("R12g", "BigDigit::from_u128(x) -> __digit_from_u128(x)  (num_traits::FromPrimitive on u64: external crate; helper carries the assumed contract)",
                  "BigDigit :: from_u128 ( $x )", "__digit_from_u128 ( $x )"),
-    "R18": Rule("R18", "|_| E -> |_e| E  (Verus rejects `_` closure parameters)", "| _ |", "| _e |"),
+    "R19": Rule("R19", "|_| E -> |_e| E  (Verus rejects `_` closure parameters)", "| _ |", "| _e |"),
     "R4b": Rule("R4b", "for (a, &b) in I { S } -> for (a, b_r__) in I { let b = *b_r__; S }",
                 "for ( $a , & $b ) in $$i { $$s }",
                 "for ( $a , b_r__ ) in $$i { let $b = * b_r__ ; $$s }"),
